@@ -1033,8 +1033,11 @@ impl Xot {
                 // remove the text node we wanted to insert as it's now consolidated
                 // we can always remove text nodes safely.
                 self.remove_dangerously(node);
-                // the text now borders on the next node too
-                self.remove_consolidate_text_nodes(Some(prev_node), next_node);
+                // the text now borders on the next node too (unless that was the
+                // added node itself, still at its old position next to prev_node)
+                if next_node != Some(node) {
+                    self.remove_consolidate_text_nodes(Some(prev_node), next_node);
+                }
                 true
             } else {
                 false
